@@ -69,28 +69,31 @@ Fixpoint de_items_g (kind : Z) (n : nat) (l : list Z) : option (list item * list
         end
   end.
 
+(* what follows the first preamble long of a non-empty image; s0 = the fresh sketch, total = length of all supplied bytes *)
+Definition fi_dec_body (kind : Z) (s0 : sk) (total : nat) (rest : list Z) : option (sk * nat) :=
+  match split_at 4 rest with None => None | Some (nb, r1) =>
+  match split_at 4 r1 with None => None | Some (_, r2) =>
+  match split_at 8 r2 with None => None | Some (tb, r3) =>
+  match split_at 8 r3 with None => None | Some (ob, r4) =>
+  (* ensure_minimum_memory(size, 32 + 8 * num_items) / the stream runs dry: the count is tested before it is used *)
+  if Z.of_nat (length r4) <? 8 * le_dec nb then None else
+  let n := Z.to_nat (le_dec nb) in
+  match de_weights n r4 with None => None | Some (ws, r5) =>
+  match de_items_g kind n r5 with None => None | Some (xs, r6) =>
+    let ws' := map (sgn64 kind) ws in
+    if existsb (fun w => w <? 0) ws' then None else
+    let s1 := fold_left (fun s xw => upd kind s (fst xw) (snd xw)) (combine xs ws') s0 in
+    Some ({| sk_tot := sgn64 kind (le_dec tb); sk_off := sgn64 kind (le_dec ob); sk_map := sk_map _ s1 |},
+          (total - length r6)%nat)
+  end end end end end end.
+
 Definition fi_dec (kind : Z) (bs : list Z) : option (sk * nat) :=
   match bs with
   | pl :: sv :: fam :: lgmax :: lgcur :: flags :: _ :: _ :: rest =>
       let empty := negb (Z.land flags 5 =? 0) in
       if negb (hdr_ok pl sv fam lgmax lgcur empty) then None else
       let s0 := sk_new item (zN lgmax) (zN lgcur) in
-      if empty then Some (s0, 8%nat) else
-      match split_at 4 rest with None => None | Some (nb, r1) =>
-      match split_at 4 r1 with None => None | Some (_, r2) =>
-      match split_at 8 r2 with None => None | Some (tb, r3) =>
-      match split_at 8 r3 with None => None | Some (ob, r4) =>
-      (* ensure_minimum_memory(size, 32 + 8 * num_items) / the stream runs dry: the count is tested before it is used *)
-      if Z.of_nat (length r4) <? 8 * le_dec nb then None else
-      let n := Z.to_nat (le_dec nb) in
-      match de_weights n r4 with None => None | Some (ws, r5) =>
-      match de_items_g kind n r5 with None => None | Some (xs, r6) =>
-        let ws' := map (sgn64 kind) ws in
-        if existsb (fun w => w <? 0) ws' then None else
-        let s1 := fold_left (fun s xw => upd kind s (fst xw) (snd xw)) (combine xs ws') s0 in
-        Some ({| sk_tot := sgn64 kind (le_dec tb); sk_off := sgn64 kind (le_dec ob); sk_map := sk_map _ s1 |},
-              (length bs - length r6)%nat)
-      end end end end end end
+      if empty then Some (s0, 8%nat) else fi_dec_body kind s0 (length bs) rest
   | _ => None
   end.
 
@@ -101,7 +104,7 @@ Definition fi_dec_stream (kind : Z) (bs : list Z) : option (sk * nat) := fi_dec 
    1 r kind lg_max lg_start { w len item.. }  build by updates; R = image bytes
    5 r path cut pos val ntrail              mangled image of r through reader path 0 (bytes) / 1 (stream)
    6 r path { w len item.. }                read the image back, same updates on the original and the restored sketch; R = both
-   7 r path                                 read the image back and serialize the restored sketch; R = 1, its image
+   7 r path                                 read the image back, serialize the restored sketch; R = 1, 32 preamble bytes, sorted counters
    3 kind byte.. / 4 kind byte..            explicit image through the bytes / stream reader
    decoded sketch: 1 [used] lg_max lg_cur total offset n, then per counter sorted by item: len item.. w *)
 Fixpoint parse_updates (fuel : nat) (t : line) : list (item * Z) :=
@@ -164,7 +167,7 @@ Definition step (st : cregs) (o e : line) : cregs * outline :=
         match reg_get st r with
         | Some (kind, s) =>
             match fi_dec kind (fi_enc kind s) with
-            | Some (s', _) => (st, (1 :: fi_enc kind s', []))
+            | Some (s', _) => (st, (1 :: firstn 32 (fi_enc kind s') ++ skipn 5 (show s'), []))
             | None => (st, (refused, []))
             end
         | None => (st, (refused, []))
